@@ -151,9 +151,12 @@ type sbox struct {
 	configsDelivered int
 	configsRefused int
 	mon sboxMon
+	cfgSeen     map[string]string // what the config reconciler listed in its current reconcile, by kind
+	lastCfgKey  string
+	lastCfgOK   bool
 }
 
-type sboxMon struct{ c05, c09, c20 bool }
+type sboxMon struct{ c05, c09, c20, c18 bool }
 
 func newSbox(c *vfCase, schedSeed uint64, mon sboxMon) *sbox {
 	sb := &sbox{c: c, mon: mon, slist: &sboxSList{disabled: true, members: map[string]bool{}}}
@@ -161,6 +164,27 @@ func newSbox(c *vfCase, schedSeed uint64, mon sboxMon) *sbox {
 	sb.k.Route = sb.route
 	sb.k.Boot = sb.boot
 	sb.k.AfterStep = sb.drain
+	sb.cfgSeen = map[string]string{}
+	sb.k.OnList = func(rec, kind string, items []client.Object) {
+		if rec != "config" {
+			return
+		}
+		var l []string
+		for _, o := range items {
+			o2 := o.DeepCopyObject().(client.Object)
+			o2.SetResourceVersion("")
+			o2.SetGeneration(0)
+			if n, ok := o2.(*v1.Node); ok {
+				n.Status = v1.NodeStatus{} // only labels matter to the configuration
+			}
+			if p, ok := o2.(*metallbv1beta1.IPAddressPool); ok {
+				p.Status = metallbv1beta1.IPAddressPoolStatus{}
+			}
+			l = append(l, vfJSON(o2))
+		}
+		sort.Strings(l)
+		sb.cfgSeen[kind] = strings.Join(l, "\n")
+	}
 	return sb
 }
 
@@ -271,6 +295,7 @@ func (sb *sbox) boot(k *boxKernel) {
 	sb.build()
 	sb.reload = make(chan event.GenericEvent, 4096)
 	sb.processedAt = map[string]int{}
+	sb.lastCfgKey, sb.lastCfgOK = "", false
 	sb.lastFirstNodeEvent = 0
 	sb.handlerCalls = 0
 	lis := sb.lis
@@ -299,7 +324,19 @@ func (sb *sbox) boot(k *boxKernel) {
 		ForceReload:    reload,
 		Handler: func(l log.Logger, cfg *config.Config) controllers.SyncState {
 			k.Yield("config", "before-handler")
+			if sb.mon.c18 {
+				key := vfJSON(sb.cfgSeen)
+				sb.c.Eval()
+				sb.c.Count("config-deliveries")
+				if sb.lastCfgOK && key == sb.lastCfgKey {
+					sb.c.Violation("handler-recalled:ConfigReconciler:unchanged-resources", "SetConfig was called again although none of the listed resources changed since the previous (accepted) call: an unrelated event looked like a configuration change and re-syncs every Service", sb.dump())
+				} else if sb.lastCfgKey != "" {
+					sb.c.Nontrivial(key)
+				}
+				sb.lastCfgKey = key
+			}
 			res := lis.ConfigHandler(l, cfg)
+			sb.lastCfgOK = res != controllers.SyncStateError
 			sb.handlerCalls++
 			if res == controllers.SyncStateError {
 				sb.configsRefused++
